@@ -172,12 +172,12 @@ func runC02(c *Ctx) error {
 				top = 26
 			}
 			hangs := 0
-			for n := 0; n <= top && hangs < 2; n++ { // a configuration that hangs (inadmissible ones may) is not swept further
+			for n := 0; n <= top && hangs < 1; n++ { // a configuration that hangs (inadmissible ones may) is not swept further
 				if c.indCase(typeKey, sp, n, false) {
 					hangs++
 				}
 			}
-			if hangs < 2 {
+			if hangs < 1 {
 				c.indCase(typeKey, sp, top+7+c.Rng.IntN(20), false)
 			}
 		}
